@@ -295,3 +295,186 @@ theorem polls_starved : ∀ (dts : List Nat) (l : Lim) (now : Nat), l.WF now →
       · rw [poll_grant l _ hlt hemp] at hz1; simp [hq] at hz1
 
 end AioslskVerif.Rate
+
+namespace AioslskVerif.Rate
+open AioslskVerif.Generated.Rate
+
+/-- scaled lower bound on the tokens credited by one non-full refill: truncation loses < 1 token -/
+theorem credit_scaled_ge (l : Lim) (t : Nat) (gap : Nat) (hL : 1024 ≤ l.L) (hb : l.bucket < 128)
+    (ht : l.last + gap ≤ t) :
+    897 * gap ≤ 1024 * credit l t + 1023 ∨ l.L ≤ l.bucket + credit l t := by
+  unfold credit
+  have h1 : 897 * gap ≤ (l.L - l.bucket) * (t - l.last) := Nat.mul_le_mul (by omega) (by omega)
+  have h2 := Nat.div_add_mod ((l.L - l.bucket) * (t - l.last)) tps
+  have h3 : (l.L - l.bucket) * (t - l.last) % tps < tps := Nat.mod_lt _ (by decide)
+  rw [tps_eq] at h2 h3
+  dsimp only
+  rw [tps_eq]
+  generalize (l.L - l.bucket) * (t - l.last) / 1024 = n at *
+  generalize (l.L - l.bucket) * (t - l.last) % 1024 = m at *
+  split
+  · right; omega
+  · left; omega
+
+/-- one empty poll: bucket grows by the credit, the refill clock is the poll time -/
+theorem poll_empty_step (l : Lim) (now dt : Nat) (hwf : l.WF now) (hL : 1024 ≤ l.L)
+    (hz : (poll l (now + dt)).2 = 0) :
+    (poll l (now + dt)).1.WF (now + dt) ∧ (poll l (now + dt)).1.L = l.L ∧
+    (poll l (now + dt)).1.last = now + dt ∧ (poll l (now + dt)).1.bucket < 128 ∧ l.bucket < 128 ∧
+    897 * dt ≤ 1024 * ((poll l (now + dt)).1.bucket - l.bucket) + 1023 ∧
+    l.bucket ≤ (poll l (now + dt)).1.bucket := by
+  have hq : minBucket = 128 := rfl
+  obtain ⟨hb, hl, hqq⟩ := hwf
+  by_cases hfull : l.L = l.bucket
+  · rw [poll_full l _ hfull] at hz; simp [hq] at hz
+  · have hlt : l.bucket < l.L := by omega
+    by_cases hemp : l.bucket + credit l (now + dt) < minBucket
+    · have hp := poll_empty l (now + dt) hlt hemp
+      have hc1 := credit_le_room l (now + dt) hb
+      have hb128 : l.bucket < 128 := by omega
+      have hc := credit_scaled_ge l (now + dt) dt hL hb128 (by omega)
+      rw [hp]
+      refine ⟨⟨hc1, Nat.le_refl _, hqq⟩, rfl, rfl, by dsimp only; omega, hb128, ?_, by dsimp only; omega⟩
+      dsimp only
+      rcases hc with hc | hc
+      · omega
+      · omega
+    · rw [poll_grant l _ hlt hemp] at hz; simp [hq] at hz
+
+/-- **four** consecutive empty polls whose gaps add up to at least 10 ticks gain at least 5 tokens -/
+theorem four_empty_polls (l : Lim) (now d1 d2 d3 d4 : Nat) (hwf : l.WF now) (hL : 1024 ≤ l.L)
+    (hsum : 10 ≤ d1 + d2 + d3 + d4) (hz : (polls l now [d1, d2, d3, d4]).2.2 = 0) :
+    (polls l now [d1, d2, d3, d4]).1.WF (polls l now [d1, d2, d3, d4]).2.1 ∧
+    (polls l now [d1, d2, d3, d4]).1.L = l.L ∧
+    l.bucket + 5 ≤ (polls l now [d1, d2, d3, d4]).1.bucket ∧
+    (polls l now [d1, d2, d3, d4]).1.bucket < 128 := by
+  simp only [polls] at hz ⊢
+  have z1 : (poll l (now + d1)).2 = 0 := by omega
+  obtain ⟨w1, L1, _, b1, b0, g1, m1⟩ := poll_empty_step l now d1 hwf hL z1
+  generalize poll l (now + d1) = p1 at *
+  have z2 : (poll p1.1 (now + d1 + d2)).2 = 0 := by omega
+  obtain ⟨w2, L2, _, b2, _, g2, m2⟩ := poll_empty_step p1.1 (now + d1) d2 w1 (by omega) z2
+  generalize poll p1.1 (now + d1 + d2) = p2 at *
+  have z3 : (poll p2.1 (now + d1 + d2 + d3)).2 = 0 := by omega
+  obtain ⟨w3, L3, _, b3, _, g3, m3⟩ := poll_empty_step p2.1 (now + d1 + d2) d3 w2 (by omega) z3
+  generalize poll p2.1 (now + d1 + d2 + d3) = p3 at *
+  have z4 : (poll p3.1 (now + d1 + d2 + d3 + d4)).2 = 0 := by omega
+  obtain ⟨w4, L4, _, b4, _, g4, m4⟩ := poll_empty_step p3.1 (now + d1 + d2 + d3) d4 w3 (by omega) z4
+  generalize poll p3.1 (now + d1 + d2 + d3 + d4) = p4 at *
+  refine ⟨w4, by omega, by omega, b4⟩
+
+/-- polls in blocks of four (up to four pollers, each waiting ≥ INTERVAL between its own polls:
+any four consecutive gaps then add up to ≥ 10 ticks) -/
+def blockPolls : Lim → Nat → List (Nat × Nat × Nat × Nat) → Lim × Nat × Nat
+  | l, now, [] => (l, now, 0)
+  | l, now, (d1, d2, d3, d4) :: r =>
+    let p := polls l now [d1, d2, d3, d4]
+    let q := blockPolls p.1 p.2.1 r
+    (q.1, q.2.1, p.2.2 + q.2.2)
+
+theorem blocks_starved : ∀ (bs : List (Nat × Nat × Nat × Nat)) (l : Lim) (now : Nat), l.WF now → 1024 ≤ l.L →
+    (∀ b ∈ bs, 10 ≤ b.1 + b.2.1 + b.2.2.1 + b.2.2.2) → (blockPolls l now bs).2.2 = 0 → bs ≠ [] →
+    l.bucket + 5 * bs.length ≤ (blockPolls l now bs).1.bucket ∧ (blockPolls l now bs).1.bucket < 128
+  | [], _, _, _, _, _, _, hne => absurd rfl hne
+  | (d1, d2, d3, d4) :: r, l, now, hwf, hL, hd, hz, _ => by
+    simp only [blockPolls] at hz ⊢
+    have hz1 : (polls l now [d1, d2, d3, d4]).2.2 = 0 := by omega
+    have hz2 : (blockPolls (polls l now [d1, d2, d3, d4]).1 (polls l now [d1, d2, d3, d4]).2.1 r).2.2 = 0 := by omega
+    have hsum := hd (d1, d2, d3, d4) (by simp)
+    obtain ⟨w, hLL, hg, hb⟩ := four_empty_polls l now d1 d2 d3 d4 hwf hL hsum hz1
+    by_cases hr : r = []
+    · subst hr; simp only [blockPolls, List.length_cons, List.length_nil]; omega
+    · have ih := blocks_starved r _ _ w (by omega) (fun b hb' => hd b (by simp [hb'])) hz2 hr
+      simp only [List.length_cons]; omega
+
+end AioslskVerif.Rate
+
+namespace AioslskVerif.Rate
+
+/-! ### FIFO service order of the `take_tokens` lock -/
+
+def waitingList (o : LObj) : List Nat := o.holder.toList ++ o.queue
+
+/-- the lock is only free when nobody waits for it (`asyncio.Lock.release` wakes the first waiter) -/
+def LObj.Tidy (o : LObj) : Prop := o.holder = none → o.queue = []
+
+theorem cascade_spec (now : Nat) : ∀ (q : List Nat) (lim : Lim),
+    (cascade lim now q).2 ++ waitingList (cascade lim now q).1 = q ∧ (cascade lim now q).1.Tidy
+  | [], lim => by simp [cascade, waitingList, LObj.Tidy]
+  | p :: rest, lim => by
+    simp only [cascade]
+    split
+    · simp [waitingList, LObj.Tidy]
+    · have ih := cascade_spec now rest (Rate.poll lim now).1
+      exact ⟨by simp [ih.1], ih.2⟩
+
+theorem holderPoll_spec (o : LObj) (now : Nat) (ht : o.Tidy) :
+    (o.holderPoll now).2 ++ waitingList (o.holderPoll now).1 = waitingList o ∧ (o.holderPoll now).1.Tidy := by
+  unfold LObj.holderPoll
+  cases hh : o.holder with
+  | none => simp only []; exact ⟨by simp, ht⟩
+  | some h =>
+    simp only []
+    split
+    · refine ⟨by simp [waitingList, hh], ?_⟩
+      intro hnone; simp [hh] at hnone
+    · have c := cascade_spec now o.queue (Rate.poll o.lim now).1
+      refine ⟨?_, c.2⟩
+      have c1 := c.1
+      simp only [waitingList] at c1
+      simp only [List.cons_append, waitingList, hh, Option.toList_some, c1]
+      simp
+
+theorem arrive_spec (o : LObj) (p now : Nat) (ht : o.Tidy) :
+    (o.arrive p now).2 ++ waitingList (o.arrive p now).1 = waitingList o ++ [p] ∧ (o.arrive p now).1.Tidy := by
+  unfold LObj.arrive
+  cases hh : o.holder with
+  | none =>
+    simp only []
+    have hq : o.queue = [] := ht hh
+    have ht' : ({ o with holder := some p } : LObj).Tidy := by intro h; simp at h
+    have := holderPoll_spec { o with holder := some p } now ht'
+    refine ⟨?_, this.2⟩
+    rw [this.1]; simp [waitingList, hh, hq]
+  | some h =>
+    simp only []
+    refine ⟨by simp [waitingList, hh], ?_⟩
+    intro hnone; simp [hh] at hnone
+
+/-- one limited limiter object driven by arrivals of requests and by the holder's wake-ups -/
+structure LockRun where
+  o : LObj
+  now : Nat
+  arrivals : List Nat      -- ghost: pollers in order of their `take_tokens()` calls
+  served : List Nat        -- ghost: pollers in the order in which they were granted tokens
+
+inductive LOp
+  | arrive (p : Nat) (dt : Nat)
+  | wake (dt : Nat)
+
+def lstep (s : LockRun) : LOp → LockRun
+  | .arrive p dt =>
+    let r := s.o.arrive p (s.now + dt)
+    { o := r.1, now := s.now + dt, arrivals := s.arrivals ++ [p], served := s.served ++ r.2 }
+  | .wake dt =>
+    let r := s.o.holderPoll (s.now + dt)
+    { o := r.1, now := s.now + dt, arrivals := s.arrivals, served := s.served ++ r.2 }
+
+def lrun (s : LockRun) (ops : List LOp) : LockRun := ops.foldl lstep s
+
+theorem lrun_fifo : ∀ (ops : List LOp) (s : LockRun), s.o.Tidy →
+    s.served ++ waitingList s.o = s.arrivals →
+    (lrun s ops).served ++ waitingList (lrun s ops).o = (lrun s ops).arrivals ∧ (lrun s ops).o.Tidy
+  | [], s, ht, h => ⟨h, ht⟩
+  | .arrive p dt :: r, s, ht, h => by
+    have a := arrive_spec s.o p (s.now + dt) ht
+    apply lrun_fifo r (lstep s (.arrive p dt)) a.2
+    simp only [lstep, List.append_assoc, a.1]
+    rw [← List.append_assoc, h]
+  | .wake dt :: r, s, ht, h => by
+    have a := holderPoll_spec s.o (s.now + dt) ht
+    apply lrun_fifo r (lstep s (.wake dt)) a.2
+    simp only [lstep, List.append_assoc, a.1]
+    exact h
+
+end AioslskVerif.Rate
